@@ -72,9 +72,13 @@ fn main() {
     });
 
     if let Some(path) = replay {
-        std::process::exit(props::replay_file(&id, &path));
+        // on a thread like the workers' (default stack size), so that a case that exhausted a worker's stack does so again
+        let rid = id.clone();
+        let code = std::thread::spawn(move || props::replay_file(&rid, &path)).join().unwrap_or(2);
+        std::process::exit(code);
     }
 
+    engine::clear_inflight(&id);
     let ctx = Ctx::new(&id, tier, seed_in);
     // regression corpus first
     props::replay_corpus(&ctx);
